@@ -8,10 +8,15 @@ f3.New/Start/Stop/Broadcast, observing Topic.Publish with a synchronous pubsub e
 def search(ctx):
     bad = []
     for seed in (ctx.seed + 101, ctx.seed + 202, ctx.seed + 303):
-        st = ctx.correspond("h_equiv", "Equiv", tag="search", seed=seed, env={"VERIF_EQUIV_HISTORIES": "150"})
+        st = ctx.correspond("h_equiv", "Equiv", tag="search-node", seed=seed, tier="quick",
+                            env={"VERIF_EQUIV_MODE": "node", "VERIF_EQUIV_HISTORIES": "150"})
         bad += [m for m in st.get("messages", []) if m.startswith("ORACLE-FAIL")]
         if bad:
             break
+    if not bad:
+        st = ctx.correspond("h_equiv", "Equiv", tag="search-filter", seed=ctx.seed + 404, tier="quick",
+                            env={"VERIF_EQUIV_MODE": "filter"})
+        bad += [m for m in st.get("messages", []) if m.startswith("ORACLE-FAIL")]
     return bad[:20] or None
 
 
